@@ -42,3 +42,9 @@ def run(ctx):
         f = ctx.prog.method(R.CLS, m, "C20.EXC")
         n_entries += 1
         check_escape(ctx, "C20.EXC", f, ("ValueError",), seeds=seeds, suppress=suppress, ctor_overflow=False, min_functions=5, label=m + "()")
+
+    # ---------------------------------------------------------------- C20.ARGS
+    from ..rules_common import check_call_arguments
+    check_call_arguments(ctx, "C20.ARGS", "C20")
+
+
